@@ -23,7 +23,8 @@ def main(argv):
     if argv[0] == 'check':
         from vlib import chfix
         chfix.install()
-        err = chfix.validate_int_model() or chfix.validate_float_model()
+        err = chfix.validate_int_model() or chfix.validate_float_model() \
+            or chfix.validate_numeral_model()
         if err:
             print('HARNESS-ERROR: ' + err)
             return 3
